@@ -30,6 +30,11 @@ def cases(seed, tier):
         if cfg == 'default' and spec['n'] > 200:
             spec['n'] = 200                       # selection fits 8 candidates per column
         out.append({'table': spec, 'config': cfg, 'seed': int(rng.integers(1 << 31))})
+    # one family for every column (the commonest explicit configuration), with and without gross outliers
+    for r in range(12 if tier == 'quick' else 400):
+        spec = mv.random_table_spec(rng, tier, n=int(rng.choice([50, 200, 1000])), marg_pool=['normal', 'gamma', 'uniform', 'student_t'])
+        spec['extras'] = [['outlier'], ['outlier', 'sum'], [], ['outlier', 'duplicate']][r % 4]
+        out.append({'table': spec, 'config': ['gaussian', 'gaussian', 'kde'][r % 3], 'seed': int(rng.integers(1 << 31))})
     for cfg in mv.CONFIGS:
         out.append({'table': {'d': 3, 'n': 40, 'corr': 'identity', 'marginals': ['constant'] * 3, 'names': 'str',
                               'seed': int(rng.integers(1 << 31)), 'all_constant': True}, 'config': cfg,
